@@ -228,7 +228,7 @@ SrcWrite(src, w, ok) == SrcWriteOn(StripN(Content(src).t), w, ok)
 \* so[s] = [adds, merge, failtok, iterating, maxmem, tmpdir, pool, buf (payload bytes buffered since the last spill)]
 SInit(s, maxmem, tmpdir, merge, failtok, pool) ==
     /\ so' = Upd(so, s, [adds |-> <<>>, merge |-> merge, failtok |-> failtok, iterating |-> FALSE, maxmem |-> maxmem,
-                         tmpdir |-> tmpdir, pool |-> pool, buf |-> 0])
+                         tmpdir |-> tmpdir, pool |-> pool, buf |-> 0, nspills |-> 0])
     /\ UNCHANGED <<disk, wr, rd, us, mg, fs, it, pl, judge>>
 \* every spill file is created inside the configured temporary directory
 SpillsOk(s, spills) == \A j \in 1..Len(spills) : HasPrefix(spills[j].tmpl, so[s].tmpdir \o <<47>>)
@@ -238,26 +238,32 @@ SpillsOk(s, spills) == \A j \in 1..Len(spills) : HasPrefix(spills[j].tmpl, so[s]
 SAdd(s, k, v, ok, spills) ==
     /\ s \in DOMAIN so
     /\ SpillsOk(s, spills)
-    /\ IF so[s].iterating THEN ~ok /\ UNCHANGED so
+    /\ IF so[s].iterating THEN ~ok /\ so' = [so EXCEPT ![s].nspills = @ + Len(spills)]
        ELSE LET nb == IF Len(spills) > 0 THEN 0 ELSE so[s].buf + Len(k) + VLen(v) IN
             /\ ok
             /\ so[s].pool < 0 => nb < so[s].maxmem
-            /\ so' = [so EXCEPT ![s].adds = Append(@, [k |-> k, v |-> v]), ![s].buf = nb]
+            /\ so' = [so EXCEPT ![s].adds = Append(@, [k |-> k, v |-> v]), ![s].buf = nb, ![s].nspills = @ + Len(spills)]
     /\ UNCHANGED <<disk, wr, rd, us, mg, fs, it, pl, judge>>
 SorterContent(s) == IF so[s].merge THEN [t |-> MergeFold(<<so[s].adds>>), ord |-> TRUE]
                                    ELSE [t |-> AllSorted(<<so[s].adds>>), ord |-> FALSE]
+\* a failing merge function may make mtbl_sorter_iter itself fail (no iterator) instead of a later next
+SIterOn(i, s, null, content) ==
+    /\ null => (Lookup(content.t, Bound("iter", <<>>, <<>>)) = <<>> \/ \E j \in 1..Len(content.t) : EntryFails(content.t[j], so[s].failtok))
+    /\ it' = Upd(it, i, [null |-> null, src |-> [t |-> "s", n |-> s], ft |-> so[s].failtok, broken |-> FALSE, free |-> FALSE,
+                         c |-> OpenCursor(content.t, content.ord, Bound("iter", <<>>, <<>>))])
 \* mtbl_sorter_iter: from now on adds and writes are refused; the iterator presents the fold of everything added
 SIter(s, i, null, spills) ==
     /\ s \in DOMAIN so /\ SpillsOk(s, spills)
-    /\ OpenOn(i, [t |-> "s", n |-> s], Bound("iter", <<>>, <<>>), null, SorterContent(s))
-    /\ so' = [so EXCEPT ![s].iterating = TRUE, ![s].buf = 0]
+    /\ SIterOn(i, s, null, SorterContent(s))
+    \* a spill whose merge function failed leaves no chunk behind
+    /\ so' = [so EXCEPT ![s].iterating = TRUE, ![s].buf = 0, ![s].nspills = @ + Len(spills) - (IF null /\ Len(spills) > 0 THEN 1 ELSE 0)]
     /\ UNCHANGED <<disk, wr, rd, us, mg, fs, pl, judge>>
 \* mtbl_sorter_write: refused after iteration began; otherwise writes the sorted, merged input into the writer
 SWrite(s, w, ok, spills) ==
     /\ s \in DOMAIN so /\ SpillsOk(s, spills)
     /\ IF so[s].iterating THEN ~ok /\ UNCHANGED <<so, wr>>
        ELSE /\ SrcWriteTo(StripN(SorterContent(s).t), w, ok)
-            /\ so' = [so EXCEPT ![s].iterating = TRUE, ![s].buf = 0]
+            /\ so' = [so EXCEPT ![s].iterating = TRUE, ![s].buf = 0, ![s].nspills = @ + Len(spills)]
     /\ UNCHANGED <<disk, rd, us, mg, fs, it, pl, judge>>
 SDestroy(s) == s \in DOMAIN so /\ so' = Del(so, s) /\ UNCHANGED <<disk, wr, rd, us, mg, fs, it, pl, judge>>
 
@@ -274,12 +280,17 @@ HOpts(set, interval, merge, dupsort, fnfilter, rdfilter) ==
 FsInit(f, path, o) ==
     /\ path \in DOMAIN fs.sf
     /\ fs' = [fs EXCEPT !.h = Upd(@, f, o),
-                        !.sh = IF path \in DOMAIN @ THEN @ ELSE Upd(@, path, [view |-> <<>>, ver |-> 0, last |-> 0, forced |-> FALSE, nopen |-> 0, nh |-> 0])]
+                        !.sh = Upd(@, path, [view |-> <<>>, ver |-> 0, last |-> 0, forced |-> FALSE, nopen |-> 0, nh |-> 1])]
     /\ UNCHANGED <<disk, wr, rd, us, mg, so, it, pl, judge>>
 FsDup(f, orig, o) == /\ orig \in DOMAIN fs.h
-                     /\ fs' = [fs EXCEPT !.h = Upd(@, f, o)]
+                     /\ fs' = [fs EXCEPT !.h = Upd(@, f, o), !.sh[o.set].nh = @ + 1]
                      /\ UNCHANGED <<disk, wr, rd, us, mg, so, it, pl, judge>>
-FsDestroy(f) == f \in DOMAIN fs.h /\ fs' = [fs EXCEPT !.h = Del(@, f)] /\ UNCHANGED <<disk, wr, rd, us, mg, so, it, pl, judge>>
+\* the shared state (loaded readers) goes away with the last handle
+FsDestroy(f) == /\ f \in DOMAIN fs.h
+                /\ LET set == fs.h[f].set IN
+                   fs' = [fs EXCEPT !.h = Del(@, f),
+                                    !.sh[set] = IF @.nh = 1 THEN [@ EXCEPT !.nh = 0, !.view = <<>>, !.ver = 0] ELSE [@ EXCEPT !.nh = @ - 1]]
+                /\ UNCHANGED <<disk, wr, rd, us, mg, so, it, pl, judge>>
 \* result of scanning the setfile now: names whose file exists and that were already loaded (kept as they are) or that
 \* open as a table; missing files and files that are not tables are skipped
 Rescan(set) == LET sf == fs.sf[set] old == fs.sh[set].view
@@ -330,4 +341,23 @@ FsClose(i) ==
        IN fs' \in (IF fs1.sh[set].nopen = 0 THEN LET x == fs1 IN {x} \cup (IF OwedIn(f, x) THEN {[x EXCEPT !.sh[set] = ReloadedIn(set, x)]} ELSE {}) ELSE {fs1})
     /\ it' = Del(it, i)
     /\ UNCHANGED <<disk, wr, rd, us, mg, so, pl, judge>>
+\* ------------------------------------------------------------------ pools and the resource ledger (C18)
+PoolInit(p, n) == pl' = Upd(pl, p, [n |-> n]) /\ UNCHANGED <<disk, wr, rd, us, mg, so, fs, it, judge>>
+PoolDestroy(p) == p \in DOMAIN pl /\ pl' = Del(pl, p) /\ UNCHANGED <<disk, wr, rd, us, mg, so, fs, it, judge>>
+SumOver(S, f(_)) == FoldSet(LAMBDA x, acc : acc + f(x), 0, S)
+\* what the process may hold, as a function of the objects alive (relative to the start of the execution):
+\* descriptors: one per open writer; mappings of test files: one per reader, one per spilled sorter chunk, one per file a
+\* fileset has loaded; threads: the caller, one result handler per pooled writer / pooled sorter that has not begun to
+\* iterate, and at most the pools' worker threads
+LFds == Cardinality(DOMAIN wr)
+LMaps == Cardinality(DOMAIN rd) + SumOver(DOMAIN so, LAMBDA s : so[s].nspills) + SumOver(DOMAIN fs.sh, LAMBDA x : Len(fs.sh[x].view))
+LHandlers == Cardinality({w \in DOMAIN wr : wr[w].cfg.pool >= 0}) + Cardinality({s \in DOMAIN so : so[s].pool >= 0 /\ ~so[s].iterating})
+LWorkersMax == SumOver(DOMAIN pl, LAMBDA p : pl[p].n)
+Settled == \A s \in DOMAIN so : so[s].pool < 0 \/ so[s].iterating          \* no chunk job can be in flight
+Quiescent == wr = <<>> /\ rd = <<>> /\ us = <<>> /\ mg = <<>> /\ so = <<>> /\ fs.h = <<>> /\ it = <<>> /\ pl = <<>>
+LedgerOk(fds, maps, threads, tmpfiles) ==
+    /\ fds >= LFds
+    /\ Settled => (fds = LFds /\ maps = LMaps /\ tmpfiles <= 0)          \* chunk jobs in flight hold their temp file open
+    /\ threads >= 1 + LHandlers /\ threads <= 1 + LHandlers + LWorkersMax
+    /\ Quiescent => (fds = 0 /\ maps = 0 /\ threads = 1 /\ tmpfiles <= 0)
 ====
